@@ -145,12 +145,17 @@ pub fn g2_rep<R: Rng>(rng: &mut R, p: G2, tag: &str) -> G2 {
         }
         "S" => {
             // lambda: 2, -1, i, a purely imaginary element, a real element, a general element
-            let l = match rng.gen_range(0..8) {
+            // (z shares a component with a special constant without being it: real part 1, imaginary part 1, real part 0 ...)
+            let l = match rng.gen_range(0..11) {
                 0 => Fq2::one() + Fq2::one(),
                 1 => -Fq2::one(),
                 2 => Fq2::new(Fq::zero(), Fq::one()),
                 3 => Fq2::new(Fq::zero(), rand_fq_nonzero(rng)),
                 4 => Fq2::new(rand_fq_nonzero(rng), Fq::zero()),
+                5 => Fq2::new(Fq::one(), rand_fq_nonzero(rng)),
+                6 => Fq2::new(Fq::one(), Fq::one()),
+                7 => Fq2::new(rand_fq_nonzero(rng), Fq::one()),
+                8 => Fq2::new(-Fq::one(), rand_fq_nonzero(rng)),
                 _ => rand_fq2_nonzero(rng),
             };
             // half of the time the rescaling starts from the normalised point, so that z is exactly lambda
